@@ -39,13 +39,30 @@ def sources(tier, seed, ctx):
     for depth in ([1500] if tier == 'quick' else [1500, 4000]):
         for j, name in enumerate(['RRG', 'MUO', 'MDG', 'MEG', 'cleanup', 'cleanup_heavy']):
             srcs.append({'k': 'deep', 'depth': depth, 'pass': name, 'rev': bool(j % 2)})
+        # ... and chains made of unary gates only (negations; buffers and negations): what the unary-merging pass follows
+        for j, (name, types) in enumerate([('MUO', ['NOT']), ('MUO', ['IFF']), ('cleanup', ['IFF', 'NOT', 'IFF']), ('MUO', ['NOT', 'IFF'])]):
+            srcs.append({'k': 'deep', 'depth': depth + 1, 'pass': name, 'rev': bool(j % 2), 'types': types})
+    # operand labels that become ambiguous once joined: T(a<sep>b, c) and T(a, b<sep>c) are different gates whatever text
+    # a signature is rendered to
+    for sep in (',', '_', ' ', '|', ', ', ''):
+        for t in ('AND', 'GT', 'XOR', 'NOR'):
+            A_, B_, C_ = 'a', 'b', 'c'
+            labels = [A_, B_, C_, A_ + sep + B_, B_ + sep + C_]
+            if len(set(labels)) < 5:
+                labels = [A_, B_, C_, A_ + sep + B_ + 'x', B_ + 'x' + sep + C_]
+            # inputs a, b, c; ab = OR(a, b); bc = NXOR(b, c); g1 = T(ab, c); g2 = T(a, bc); both are outputs
+            gs = [['OR', [1, 2]], ['NXOR', [2, 3]], [t, [4, 3]], [t, [1, 5]]]
+            for name in ('MDG', 'cleanup', 'cleanup_heavy'):
+                srcs.append({'net': [3, gs], 'outs': [6, 7], 'variant': 'plain', 'vs': 0, 'pass': name,
+                             'labels': labels + ['g1', 'g2']})
     return srcs
 
 
 def record(src):
     if src.get('k') == 'deep':
         from .. import deep
-        return deep.transform_case(PROP, src['pass'], src, lambda c: P.run_pass(src['pass'], c), types=('NOT', 'XOR', 'NOT', 'NOT', 'AND', 'XOR'))
+        return deep.transform_case(PROP, src['pass'], src, lambda c: P.run_pass(src['pass'], c),
+                                   types=tuple(src.get('types') or ('NOT', 'XOR', 'NOT', 'NOT', 'AND', 'XOR')))
     return P.record_pass(src, PROP)
 
 
